@@ -224,19 +224,28 @@ Proof.
 Qed.
 
 (** ** Refusal *)
+Lemma refuses_iff_all a b : refuses a b = negb ((a mod b =? 0) || (b mod a =? 0)).
+Proof. unfold refuses. rewrite negb_orb. reflexivity. Qed.
+
 Lemma refuses_iff a b : 0 < a -> 0 < b ->
   refuses a b = negb ((a mod b =? 0) || (b mod a =? 0)).
+Proof. intros _ _. apply refuses_iff_all. Qed.
+
+(** for positive rates this is the test in the shape of the pinned code: (a > b and b does not divide a) or (a < b and a
+    does not divide b) *)
+Lemma refuses_pinned_shape a b : 0 < a -> 0 < b ->
+  refuses a b = ((a >? b) && negb (a mod b =? 0)) || ((a <? b) && negb (b mod a =? 0)).
 Proof.
   intros Ha Hb. unfold refuses.
   destruct (Z.lt_trichotomy a b) as [L|[L|L]].
   - rewrite (Z.mod_small a b) by lia.
     destruct (a >? b) eqn:E1; [lia|]. destruct (a <? b) eqn:E2; [|lia].
-    destruct (a =? 0) eqn:E3; [lia|]. cbn. reflexivity.
+    destruct (a =? 0) eqn:E3; [lia|]. destruct (b mod a =? 0); reflexivity.
   - subst b. rewrite Z.mod_same by lia.
     destruct (a >? a) eqn:E1; [lia|]. destruct (a <? a) eqn:E2; [lia|]. reflexivity.
   - rewrite (Z.mod_small b a) by lia.
     destruct (a >? b) eqn:E1; [|lia]. destruct (a <? b) eqn:E2; [lia|].
-    destruct (b =? 0) eqn:E3; [lia|]. cbn. rewrite orb_false_r, orb_false_r. reflexivity.
+    destruct (b =? 0) eqn:E3; [lia|]. destruct (a mod b =? 0); reflexivity.
 Qed.
 
 Lemma refuses_false_cases a b : 0 < a -> 0 < b -> refuses a b = false ->
